@@ -1,6 +1,7 @@
 (* SIR_VariableInfection in the Coq whole-run model: the final statements.
      A. about the dynamic kernel (Model/KernelDyn.v), for every user state W and every dynamic
-        table D (arbitrary user programs, arbitrary generator of appended entries);
+        table D (arbitrary user programs, arbitrary generator of appended entries); the model follows
+        /repo after repair F15 (0d0f7b6: len(SingletonLocus) is 0 once its element has left its locus);
      B. about SIR_VariableInfection (Model/CompartVI.v), for every vimodel (loci table, registered
         events, index of the SI locus, summary of infect), network, initial assignment, edge
         infectivities, oracle and fuel; the shipped class is [sir_vi pRemove];
@@ -69,8 +70,9 @@ Print Assumptions CVI_zero_never_sync.
 
 (* ---------------------------------------------------------------- C05, stochastic dynamics *)
 (* one Gillespie iteration: selection over the distribution computed from the state at its start,
-   the posted events, then the firing: a registered event reads its live locus, an appended entry
-   is called on its stored value without any test and without consuming a rank *)
+   the posted events, then the firing (dstoch_fire): a registered event reads its live locus, an appended
+   entry is tested on the current state and, if still a member, called on its stored value without
+   consuming a rank *)
 Theorem CVI_stoch_iteration : forall W (D : dtable W) pf f t events (s : st W),
   dstoch_loop D pf (S f) t events s =
   if at_equil (d_tb D) t s then (t, events, s)
@@ -104,43 +106,44 @@ Proof.
 Qed.
 Print Assumptions CVI_zero_never_stoch_select.
 
-(* The code does not re-test membership of an appended entry under stochastic dynamics.  The test
-   holds at the call all the same PROVIDED (i) every entry passes its test in the state it is
-   generated from and (ii) the programs that are ever posted (a class Qp closed under what set-up
-   and all programs post) change neither loci nor user state. *)
-Theorem CVI_member_stoch : forall W (D : dtable W) (Qp : nat -> Prop),
-  (forall p, In p (t_procs (d_tb D)) -> Forall (posts_ok Qp) (p_setup p)) ->
-  (forall k t e lc w, Forall (posts_ok Qp) (snd (prog_of (d_tb D) k t e lc w))) ->
-  (forall k, Qp k -> forall t e lc w,
-     fst (prog_of (d_tb D) k t e lc w) = w /\ fold_left (act_loci e) (snd (prog_of (d_tb D) k t e lc w)) lc = lc) ->
-  (forall pi lc w d, In d (d_dyn D pi lc w) -> de_member d lc w = true) ->
-  forall pf fuel rs ls ds k t c e m,
+(* the guard `len(l) > 0` of the Gillespie loop, for an appended entry: its membership test on the state
+   the posted events of the interval left (repair F15: len(SingletonLocus) is 0 once its element has left
+   the locus it was taken from).  A stale entry: no call, no record, no count, no rank consumed *)
+Theorem CVI_stoch_stale_skip : forall W (D : dtable W) pi d nt ev (s5 : st W),
+  de_member d (loci s5) (world s5) = false -> dstoch_fire D (TDyn pi d) nt ev s5 = (ev, s5).
+Proof. intros W D. exact (dstoch_fire_stale D). Qed.
+Print Assumptions CVI_stoch_stale_skip.
+
+Theorem CVI_stoch_live_fire : forall W (D : dtable W) pi d nt ev (s5 : st W),
+  de_member d (loci s5) (world s5) = true -> dstoch_fire D (TDyn pi d) nt ev s5 = (S ev, fire_dyn D pi d nt s5).
+Proof. intros W D. exact (dstoch_fire_live D). Qed.
+Print Assumptions CVI_stoch_live_fire.
+
+(* hence, for every dynamic table, whatever user programs post and do: every event function entered from
+   the Gillespie loop - registered event or appended entry - is entered on an element that passes the
+   membership test of its locus at that instant *)
+Theorem CVI_member_stoch : forall W (D : dtable W) pf fuel rs ls ds k t c e m,
   In (OHandler k t c e (Some m)) (r_out (dstoch_run D pf fuel rs ls ds)) -> m = true.
-Proof. intros W D Qp H1 H2 H3 H4. exact (dstoch_run_member D Qp H1 H2 H3 H4). Qed.
+Proof. intros W D. exact (dstoch_run_member D). Qed.
 Print Assumptions CVI_member_stoch.
 
-(* proviso (ii) cannot be dropped: a posted event that removes the selected element before the call *)
-Theorem CVI_member_stoch_refuted : exists (D : dtable unit) pf fuel rs ls ds k t c e,
-  (forall pi lc w d, In d (d_dyn D pi lc w) -> de_member d lc w = true) /\
-  In (OHandler k t c e (Some false)) (r_out (dstoch_run D pf fuel rs ls ds)).
-Proof.
-  exists (ex_D [] [APost (1#2) 1%nat] 1), 10%nat, 10%nat, [1#2; 1#4], [2], [], 0%nat, 1, 1, (EN 1).
-  destruct dstoch_member_refuted as (E & _ & S). split; [exact S|]. rewrite E. cbn. tauto.
-Qed.
-Print Assumptions CVI_member_stoch_refuted.
+(* the F15 situation in the model: the entry for element 1 is selected at time 0 for time 1; an event posted
+   for 1/2 removes element 1 from the underlying locus; the stale entry is skipped (before the repair the
+   event function was entered on the non-member) *)
+Example CVI_stale_entry_skipped :
+  let D := ex_D [] [APost (1#2) 1%nat] 1 in
+  let r := dstoch_run D 10 10 [1#2; 1#4] [2] [] in
+  r_out r = [OPosted 0 (1 # 2); OHandler 1 (1 # 2) (1 # 2) (EN 0) None; OTap (1 # 2) 0 (NPost 1) (EN 0)]
+  /\ r_time r = 1 /\ r_events r = 1%nat /\ r_stuck r = false /\ loci (r_final r) = [[EN 2]].
+Proof. exact dstoch_stale_skipped. Qed.
+Print Assumptions CVI_stale_entry_skipped.
 
-(* under the same provisos, probabilities >= 0 and uniform variates in [0,1): zero-probability and
-   absent entries never fire in a Gillespie run *)
-Theorem CVI_zero_never_stoch : forall W (D : dtable W) (Qp : nat -> Prop),
-  (forall p, In p (t_procs (d_tb D)) -> Forall (posts_ok Qp) (p_setup p)) ->
-  (forall k t e lc w, Forall (posts_ok Qp) (snd (prog_of (d_tb D) k t e lc w))) ->
-  (forall k, Qp k -> forall t e lc w,
-     fst (prog_of (d_tb D) k t e lc w) = w /\ fold_left (act_loci e) (snd (prog_of (d_tb D) k t e lc w)) lc = lc) ->
-  (forall pi lc w d, In d (d_dyn D pi lc w) -> de_member d lc w = true) ->
-  forall pf fuel rs ls ds t pi j e,
+(* with probabilities >= 0 in every distribution and uniform variates in [0,1): zero-probability and absent
+   entries never fire in a Gillespie run *)
+Theorem CVI_zero_never_stoch : forall W (D : dtable W) pf fuel rs ls ds t pi j e,
   (forall lc w, dnonneg D lc w) -> Forall unit_rand rs ->
   In (OTap t pi (NEv pi j) e) (r_out (dstoch_run D pf fuel rs ls ds)) -> fired_dyn_ok D pi j e.
-Proof. intros W D Qp H1 H2 H3 H4. exact (dstoch_run_fired D Qp H1 H2 H3 H4). Qed.
+Proof. intros W D. exact (dstoch_run_fired D). Qed.
 Print Assumptions CVI_zero_never_stoch.
 
 (* ---------------------------------------------------------------- the variant is the same scheduler *)
@@ -166,14 +169,18 @@ Theorem CVI_sir_vi_facts : forall p,
 Proof. intros p. repeat split. Qed.
 Print Assumptions CVI_sir_vi_facts.
 
-Theorem CVI_shipped_is_sir_vi : forall vm, Tie.CompartVI.vi_shipped vm = true -> exists p, vm = sir_vi p.
+Theorem CVI_shipped_is_sir_vi : forall vm, Tie.CompartVI.vi_shipped vm = true -> exists p post, vm = sir_vi_gen p post.
 Proof.
-  intros [specs events si0 infect]. unfold Tie.CompartVI.vi_shipped. cbn [vim_events vim_specs vim_si vim_infect].
+  intros [specs events si0 infect sp]. unfold Tie.CompartVI.vi_shipped. cbn [vim_events vim_specs vim_si vim_infect vim_seed_post].
   destruct events as [|[el lo p kd] [|ev2 events]]; try discriminate.
-  cbn [ce_elem ce_locus ce_kind]. rewrite !andb_true_iff. intros [[[[[H1 H2] H3] H4] H5] H6].
-  exists p. apply Nat.eqb_eq in H3. apply Nat.eqb_eq in H5. subst el lo si0.
+  cbn [ce_elem ce_locus ce_kind]. rewrite !andb_true_iff. intros [[[[[[H1 H2] H3] H4] H5] H6] H8].
+  exists p.
+  assert (Hsp : exists post, sp = option_map (fun T => (1%Z, T, 0%nat)) post).
+  { destruct sp as [[[c T] k]|]; [|exists None; reflexivity]. apply andb_true_iff in H8. destruct H8 as [G1 G2].
+    apply Z.eqb_eq in G1. apply Nat.eqb_eq in G2. subst. exists (Some T). reflexivity. }
+  destruct Hsp as [post ->]. exists post. clear H8. apply Nat.eqb_eq in H3. apply Nat.eqb_eq in H5. subst el lo si0.
   destruct kd as [c|c m0 post0| |]; cbn in H4; try discriminate; [|destruct post0; discriminate]. apply Z.eqb_eq in H4. subst c.
-  destruct infect as [c0|c m [post|]| |]; cbn in H6; try discriminate.
+  destruct infect as [c0|c m [post1|]| |]; cbn in H6; try discriminate.
   apply andb_true_iff in H6. destruct H6 as [H6 H7]. apply Z.eqb_eq in H6. subst c. destruct m; [|discriminate].
   destruct specs as [|[c1|l r|l2 rs2] [|[c|l3 r3|l3 rs3] [|sp3 specs]]]; cbn in H1; rewrite ?andb_true_iff in H1;
     try discriminate; try (exfalso; intuition discriminate).
@@ -204,13 +211,9 @@ Print Assumptions CVI_vi_entry.
 
 (* ---------------------------------------------------------------- (1) C05 for whole runs *)
 Theorem CVI_vi_member_stoch : forall vm nodes edges init inf maxtime monitor pf fuel rs ls ds k t c e m,
-  vi_nopost vm = true ->
   In (OHandler k t c e (Some m)) (r_out (dstoch_run (mk_vitable vm nodes edges init inf maxtime monitor) pf fuel rs ls ds)) ->
   m = true.
-Proof.
-  intros vm nodes edges init inf maxtime monitor pf fuel rs ls ds k t c e m Hn.
-  exact (vi_stoch_member vm nodes edges init inf maxtime monitor pf fuel rs ls ds k t c e m Hn).
-Qed.
+Proof. intros vm nodes edges init inf maxtime monitor. exact (dstoch_run_member (mk_vitable vm nodes edges init inf maxtime monitor)). Qed.
 Print Assumptions CVI_vi_member_stoch.
 
 Theorem CVI_vi_member_sync : forall vm nodes edges init inf maxtime monitor pf fuel rs ds k t c e m,
@@ -223,38 +226,48 @@ Print Assumptions CVI_vi_member_sync.
 (* [VJ s]: the kernel's loci are the sorted loci the handlers keep, these satisfy the C01 invariant
    for the model's table, nodes and edges are the network's, every node has a compartment of the
    model.  It holds on the state every event function is entered on and at the end, under either
-   dynamics; only Monitor.observe is ever queued. *)
+   dynamics - also for a subclass whose set-up posts removals (vim_seed_post). *)
 Theorem CVI_vi_stoch_run : forall vm nodes edges init inf maxtime monitor pf fuel rs ls ds,
-  vi_nopost vm = true -> wf_loci (vim_specs vm) = true -> graph_okb nodes edges = true -> init_ok (vi_cm vm) nodes init = true ->
+  wf_loci (vim_specs vm) = true -> graph_okb nodes edges = true -> init_ok (vi_cm vm) nodes init = true ->
   let D := mk_vitable vm nodes edges init inf maxtime monitor in
-  let J := fun s => VJ vm nodes edges s /\ qinv (vi_posted vm) s in
   exists cs, DSteps D (fun _ => True) (setup_state (d_tb D) rs ls ds) cs (r_final (dstoch_run D pf fuel rs ls ds))
-    /\ J (r_final (dstoch_run D pf fuel rs ls ds)) /\ Forall (fun sc => J (fst sc)) cs.
+    /\ VJ vm nodes edges (r_final (dstoch_run D pf fuel rs ls ds)) /\ Forall (fun sc => VJ vm nodes edges (fst sc)) cs.
 Proof.
-  intros vm nodes edges init inf maxtime monitor pf fuel rs ls ds Hn Hwf Hg Hi. cbv zeta.
-  destruct (vi_stoch_run_steps vm nodes edges init inf maxtime monitor pf fuel rs ls ds Hn) as [cs H].
+  intros vm nodes edges init inf maxtime monitor pf fuel rs ls ds Hwf Hg Hi. cbv zeta.
+  destruct (vi_stoch_run_steps vm nodes edges init inf maxtime monitor pf fuel rs ls ds) as [cs H].
   exists cs. split; [exact H|].
-  destruct (VJ_dsteps vm nodes edges init inf maxtime monitor _ rs ls ds cs _ Hwf Hg Hi H) as [A1 A2].
-  destruct (vi_qinv_dsteps vm nodes edges init inf maxtime monitor _ rs ls ds cs _ Hn H) as [B1 B2].
-  split; [split; assumption|]. rewrite Forall_forall in *. intros sc Hsc. split; [apply A2 | apply B2]; exact Hsc.
+  exact (VJ_dsteps vm nodes edges init inf maxtime monitor _ rs ls ds cs _ Hwf Hg Hi H).
 Qed.
 Print Assumptions CVI_vi_stoch_run.
 
 Theorem CVI_vi_sync_run : forall vm nodes edges init inf maxtime monitor pf fuel rs ds,
-  vi_nopost vm = true -> wf_loci (vim_specs vm) = true -> graph_okb nodes edges = true -> init_ok (vi_cm vm) nodes init = true ->
+  wf_loci (vim_specs vm) = true -> graph_okb nodes edges = true -> init_ok (vi_cm vm) nodes init = true ->
   let D := mk_vitable vm nodes edges init inf maxtime monitor in
-  let J := fun s => VJ vm nodes edges s /\ qinv (vi_posted vm) s in
   exists cs, DSteps D (Xpos) (setup_state (d_tb D) rs [] ds) cs (r_final (dsync_run D pf fuel rs ds))
-    /\ J (r_final (dsync_run D pf fuel rs ds)) /\ Forall (fun sc => J (fst sc)) cs.
+    /\ VJ vm nodes edges (r_final (dsync_run D pf fuel rs ds)) /\ Forall (fun sc => VJ vm nodes edges (fst sc)) cs.
 Proof.
-  intros vm nodes edges init inf maxtime monitor pf fuel rs ds Hn Hwf Hg Hi. cbv zeta.
+  intros vm nodes edges init inf maxtime monitor pf fuel rs ds Hwf Hg Hi. cbv zeta.
   destruct (vi_sync_run_steps vm nodes edges init inf maxtime monitor pf fuel rs ds) as [cs H].
   exists cs. split; [exact H|].
-  destruct (VJ_dsteps vm nodes edges init inf maxtime monitor _ rs [] ds cs _ Hwf Hg Hi H) as [A1 A2].
-  destruct (vi_qinv_dsteps vm nodes edges init inf maxtime monitor _ rs [] ds cs _ Hn H) as [B1 B2].
-  split; [split; assumption|]. rewrite Forall_forall in *. intros sc Hsc. split; [apply A2 | apply B2]; exact Hsc.
+  exact (VJ_dsteps vm nodes edges init inf maxtime monitor _ rs [] ds cs _ Hwf Hg Hi H).
 Qed.
 Print Assumptions CVI_vi_sync_run.
+
+(* the shipped class (no event function posts, set-up posts nothing): along every run only Monitor.observe is
+   ever queued, and a posted call changes neither the user state nor the loci *)
+Theorem CVI_vi_only_observe_queued : forall vm nodes edges init inf maxtime monitor Xtr rs ls ds cs (s : st viworld),
+  let D := mk_vitable vm nodes edges init inf maxtime monitor in
+  vi_nopost vm = true -> DSteps D Xtr (setup_state (d_tb D) rs ls ds) cs s ->
+  qinv (vi_posted vm) s /\ Forall (fun sc => qinv (vi_posted vm) (fst sc)) cs.
+Proof. intros vm nodes edges init inf maxtime monitor Xtr rs ls ds cs s. exact (vi_qinv_dsteps vm nodes edges init inf maxtime monitor Xtr rs ls ds cs s). Qed.
+Print Assumptions CVI_vi_only_observe_queued.
+
+Theorem CVI_vi_posted_inert : forall vm nodes edges init inf maxtime monitor Xtr h (s : st viworld),
+  let D := mk_vitable vm nodes edges init inf maxtime monitor in
+  qinv (vi_posted vm) s -> dcall_ok D Xtr (DPost h) s ->
+  world (dafter D (DPost h) s) = world s /\ loci (dafter D (DPost h) s) = loci s.
+Proof. intros vm nodes edges init inf maxtime monitor Xtr h s. exact (vi_posted_call_inert vm nodes edges init inf maxtime monitor Xtr h s). Qed.
+Print Assumptions CVI_vi_posted_inert.
 
 (* C07_partition on such a state: the network is unchanged, every node has exactly one compartment
    of the model, the sizes results() reports sum to |V| *)
@@ -267,10 +280,12 @@ Theorem CVI_vi_partition : forall vm nodes edges (s : st viworld), VJ vm nodes e
 Proof. intros vm nodes edges s. exact (vi_partition vm nodes edges s). Qed.
 Print Assumptions CVI_vi_partition.
 
-(* C07_diagram: whatever a call of such a run changes is an arrow of the model (for sir_vi: S>I, I>R) *)
+(* C07_diagram: whatever a call of a stochastic / per-element event function or of an appended entry changes
+   is an arrow of the model (for sir_vi: S>I, I>R); posted calls of the shipped class change nothing
+   (CVI_vi_posted_inert) *)
 Theorem CVI_vi_diagram : forall vm nodes edges init inf maxtime monitor Xtr c (s : st viworld),
   let D := mk_vitable vm nodes edges init inf maxtime monitor in
-  vi_nopost vm = true -> VJ vm nodes edges s -> qinv (vi_posted vm) s -> dcall_ok D Xtr c s ->
+  VJ vm nodes edges s -> dcall_ok D Xtr c s -> (forall h, c <> DPost h) ->
   forall v, getc (cw_st (vi_base (world (dafter D c s)))) v <> getc (cw_st (vi_base (world s))) v ->
   exists l c', getc (cw_st (vi_base (world s))) v = Some l /\ getc (cw_st (vi_base (world (dafter D c s)))) v = Some c'
     /\ In (l, c') (vi_arrows vm).
@@ -375,3 +390,16 @@ Example CVI_example_sync_skip :
   /\ cw_occ (vi_base (world (r_final r))) = [((2, 0)%Z, 1)].
 Proof. cbv zeta. repeat split; vm_compute; reflexivity. Qed.
 Print Assumptions CVI_example_sync_skip.
+
+(* the F15 situation with the harness' posted-removal subclass: path 0 - 1, node 0 infected and removed by an
+   event posted for 1/2, infectivity 1, pRemove = 0.  Gillespie selects infect on (1,0) for time 1; the posted
+   removal runs first; the entry is stale and is skipped: node 1 stays susceptible *)
+Example CVI_example_posted_removal :
+  let D := mk_vitable (sir_vi_gen 0 (Some (1#2))) [0; 1]%Z [(0, 1)]%Z [(0, 1); (1, 3)]%Z
+                      (initial_infectivities [(0, 1)]%Z [1]) 3 None in
+  let r := dstoch_run D 50 50 [1#2; 1#2; 1#2] [1; 1] [] in
+  r_out r = [OPosted 0 (1 # 2); OHandler 0 (1 # 2) (1 # 2) (EN 0) None; OTap (1 # 2) 0 (NPost 0) (EN 0)]
+  /\ r_time r = 1 /\ r_events r = 1%nat /\ r_stuck r = false
+  /\ map (getc (cw_st (vi_base (world (r_final r))))) [0; 1]%Z = [Some 2; Some 3]%Z.
+Proof. cbv zeta. repeat split; vm_compute; reflexivity. Qed.
+Print Assumptions CVI_example_posted_removal.
